@@ -84,6 +84,11 @@ package rules
 // Third iteration (r9..r12 silent): an unexported interface in front of the etcd session mutex (`remote sessionLocker`)
 //   is resolved through the stores into fields of that interface type — all of them *concurrency.Mutex values
 //   (c18resolveEtcdFronts); mutants on the r11 / r12 shapes (r11m1-2, r12m1-5) are still reported.
+// Fourth iteration (r13..r16 silent): lock / unlock functions by dependency inversion (Lock() hands the method expression
+//   cluster.Mutex.Lock to an applicator that calls its func parameter on the mutex; the acquisition check is made on the
+//   applicator); a handler that keeps parsing + Lock/defer Unlock and calls a *Locked helper last is judged on the helper
+//   re-analysed as entered with the lock held (only if every call site of the helper holds the lock; c18_api.go delegated).
+//   Mutants r14m1-2, r16m1-4 on those shapes are reported.
 // Behaviour-preserving edits that stay silent (exit unchanged): P1 renamed locals + `nil != err || p` + `return err`;
 // P2 Lock without named result (`done` flag, explicit `return e`); P3 Unlock with the etcd error in a local and explicit
 // order; P4 `return m.m.Lock(ctx)` with recover-and-repanic closure; P5 double-checked RWMutex table; P6 sync.Map
